@@ -580,6 +580,25 @@ void build(Built& b, const Case& c) {
 			sits->SetSegments(sd);
 		}
 	}
+	// raw FO4-style segment table (no sub-segments) written straight into the block, as a loaded
+	// file may carry it: fseg=startIndex.numPrimitives;startIndex.numPrimitives
+	if (!c.get("fseg").empty()) {
+		if (auto sits = dynamic_cast<BSSubIndexTriShape*>(shape)) {
+			auto& sn = sits->segmentation;
+			sn.segments.clear();
+			for (auto& s : split(c.get("fseg"), ';')) {
+				auto q = split(s, '.');
+				BSSubIndexTriShape::BSSITSSegment g;
+				g.startIndex = static_cast<uint32_t>(std::stoul(q[0]));
+				g.numPrimitives = static_cast<uint32_t>(std::stoul(q[1]));
+				sn.segments.push_back(g);
+			}
+			sn.numPrimitives = shape->GetNumTriangles();
+			sn.numSegments = static_cast<uint32_t>(sn.segments.size());
+			sn.numTotalSegments = sn.numSegments;
+			sn.subSegmentData = BSSubIndexTriShape::BSSITSSubSegmentData();
+		}
+	}
 }
 
 NiShape* nth_shape(NifFile& nif, size_t k) {
